@@ -250,24 +250,38 @@ def docVal (d : Doc) : Prog J :=
   | .val j => .ret j
   | _ => .fail .lib
 
-def mustHaveActivityActorsMatchObjectActors (F : TFacts) (actors : Option (List J)) (op : List J) (box : Iri) : Prog Unit := do
-  let actorElems ← match actors with
-    | none => Prog.panic "undo: actors.Begin() on nil actor property"
-    | some xs => pure xs
-  let actorIds ← idsM F actorElems
-  let actorIds ← strsOf "undo: id.String() on nil" actorIds
+/-- the actor property of a fetched activity (`objActors.Begin()` on nil is a nil dereference) -/
+def undoObjActors (t : J) : Prog (List J) :=
+  match rawList t "actor" with
+  | none => Prog.panic "undo: objActors.Begin() on nil actor property"
+  | some xs => pure xs
+
+/-- what the Undo check does with a fetched document: every actor of it must be among `actorIds` -/
+def undoTail (F : TFacts) (actorIds : List Iri) (d : Doc) : Prog Unit := do
+  let t ← docVal d
+  if !has F t "actor" then .fail .lib else do
+    let objActors ← undoObjActors t
+    let ids ← idsM F objActors
+    let ids ← strsOf "undo: id.String() on nil" ids
+    if ids.all actorIds.contains then pure () else .fail .lib
+
+def undoLoop (F : TFacts) (actorIds : List Iri) (box : Iri) (op : List J) : Prog Unit :=
   op.forM fun j => do
     let iri ← liftLib (toId F (elemOf F j))
     Op.newTransport box
     let d ← Op.deref iri
-    let t ← docVal d
-    if !has F t "actor" then .fail .lib else
-    let objActors ← match rawList t "actor" with
-      | none => Prog.panic "undo: objActors.Begin() on nil actor property"
-      | some xs => pure xs
-    let ids ← idsM F objActors
-    let ids ← strsOf "undo: id.String() on nil" ids
-    if ids.all actorIds.contains then pure () else .fail .lib
+    undoTail F actorIds d
+
+def undoActorElems (actors : Option (List J)) : Prog (List J) :=
+  match actors with
+  | none => Prog.panic "undo: actors.Begin() on nil actor property"
+  | some xs => pure xs
+
+def mustHaveActivityActorsMatchObjectActors (F : TFacts) (actors : Option (List J)) (op : List J) (box : Iri) : Prog Unit := do
+  let actorElems ← undoActorElems actors
+  let actorIds ← idsM F actorElems
+  let actorIds ← strsOf "undo: id.String() on nil" actorIds
+  undoLoop F actorIds box op
 
 /-! ### shared `add` / `remove` -/
 
